@@ -37,8 +37,24 @@ impl PoolState {
         })
     }
     fn try_take_slot(&self) -> bool {
+        // Every simulated task keeps its coroutine stack (one memory mapping plus a guard
+        // page) until the execution ends, and a process may hold about 65 000 mappings.  A
+        // run that has already started 24 000 tasks gets no further helpers: the caller does
+        // the work itself (what rayon does when no worker is free) -- a legal schedule, and
+        // the alternative is the simulator running out of mappings.
+        if verif_rt::ctx::with(|c| {
+            if c.stats.tasks_started >= 24_000 {
+                c.stats.tasks_refused += 1;
+                true
+            } else {
+                false
+            }
+        }) {
+            return false;
+        }
         let mut a = self.active.lock().unwrap();
         if *a < self.threads {
+            verif_rt::ctx::with(|c| c.stats.tasks_started += 1);
             *a += 1;
             true
         } else {
